@@ -306,7 +306,7 @@ func record(c hx.Creds, cmd string, a Attack, r result) {
 }
 
 func TestRandom(t *testing.T) {
-	ev.Check(t, "TestRandom", ev.PickN(3000, 160000), func(t *rapid.T) {
+	ev.Check(t, "TestRandom", ev.PickN(3000, 500000), func(t *rapid.T) {
 		c := hx.Creds{User: "admin", Password: []byte("pw"), Priv: 4, Suite: rapid.SampledFrom(hx.Suites9()).Draw(t, "suite"), Seed: rapid.Uint64().Draw(t, "seed")}
 		cmd := rapid.SampledFrom(cmdNames).Draw(t, "command")
 		a := Attack{Kind: rapid.SampledFrom([]string{"forge", "forge", "forge", "flip", "cut"}).Draw(t, "kind")}
